@@ -192,17 +192,29 @@ def to_class(interp, v):
         return v
     if isinstance(v, FnV) and (v.info.get("local") or (v.info.get("resolved") or {}).get("local")) and interp.prog.has_body(v.key()):
         return FnClass(v.key())
-    if isinstance(v, int) and not isinstance(v, bool):
-        return CharSet([v])
-    if isinstance(v, tuple) and all(isinstance(x, int) and not isinstance(x, bool) for x in v):
-        return CharSet(v)
-    if isinstance(v, ListV) and all(isinstance(x, int) and not isinstance(x, bool) for x in v.items):
-        return CharSet(v.items)
-    if isinstance(v, Adt) and v.name in ("std::ops::RangeInclusive", "std::ops::Range") and all(isinstance(x, int) for x in v.fields[:2]):
-        hi = v.fields[1] + (1 if v.name == "std::ops::RangeInclusive" else 0)
-        if hi - v.fields[0] > 0x200:
-            raise Inconclusive("character range too large for the class abstraction", interp.where())
-        return CharSet(range(v.fields[0], hi))
+    def flatten(x, depth=0):
+        """characters of a literal set: a char, a range of chars, or a tuple / array of those"""
+        if isinstance(x, (Ptr, BoxV)):
+            x = interp.load(x)
+        if isinstance(x, int) and not isinstance(x, bool):
+            return [x]
+        if isinstance(x, Adt) and x.name in ("std::ops::RangeInclusive", "std::ops::Range") and all(isinstance(y, int) for y in x.fields[:2]):
+            hi = x.fields[1] + (1 if x.name == "std::ops::RangeInclusive" else 0)
+            if hi - x.fields[0] > 0x200:
+                raise Inconclusive("character range too large for the class abstraction", interp.where())
+            return list(range(x.fields[0], hi))
+        if isinstance(x, (tuple, ListV)) and depth < 3:
+            out = []
+            for y in (x if isinstance(x, tuple) else x.items):
+                r = flatten(y, depth + 1)
+                if r is None:
+                    return None
+                out += r
+            return out
+        return None
+    chars = flatten(v)
+    if chars is not None:
+        return CharSet(chars)
     raise Inconclusive("character class %r" % (v,), interp.where())
 
 
